@@ -2,6 +2,7 @@ package trzsz
 
 import (
 	"bytes"
+	"encoding/json"
 	"fmt"
 	"io"
 	"os"
@@ -407,12 +408,21 @@ func vScenarioC11(rc *runCtx) {
 		}
 	}
 	c11kinds := []string{"silent-up", "silent-down", "silent-both", "close-up", "close-down", "break-up", "break-down", "disk-write", "disk-short-write", "src-read-error", "src-shrink", "stall-client", "stall-server"}
-	kind := c11kinds[tp.Draw("c11.kind", 13)]
+	kind := append(c11kinds, "src-shrink-at-name")[tp.Draw("c11.kind", 14)]
 	if rc.param("slowdisk", "") == "1" {
 		kind = "disk-slow-then-full"
 	}
+	_, enumerated := rc.enumInt("enum_kind")
 	if v, ok := rc.enumInt("enum_kind"); ok {
 		kind = c11kinds[v%13]
+	}
+	// a local failure ends the transfer also when the user asked never to time out
+	if !enumerated && (strings.HasPrefix(kind, "disk-") || strings.HasPrefix(kind, "src-")) && kind != "disk-slow-then-full" && tp.Bool("c11.notimeout", 250) {
+		cfg.timeout = 0
+		o.flags = cfg.flags()
+		T = 0
+		rc.res.Scenario["flags"] = strings.Join(o.flags, " ")
+		rc.fault("never-time-out")
 	}
 	pm := []int{40, 120, 400}[tp.Draw("c11.rate", 3)]
 	var faultAt time.Duration = -1
@@ -580,6 +590,54 @@ func vScenarioC11(rc *runCtx) {
 				}
 			}
 		}
+	case "src-shrink-at-name":
+		// the file is cut behind the sender's back right when its name goes out: before anything of it was read,
+		// in the resume (prefix hash) phase when the destination holds an older version
+		nameLink := x.downLast()
+		if cfg.upload {
+			nameLink = x.up[0]
+		}
+		wrap(nameLink, func(l *verifsim.Link, dd []byte) []byte {
+			if faultAt >= 0 || !bytes.HasPrefix(dd, []byte("#NAME:")) || !fire() {
+				return dd
+			}
+			end := bytes.IndexAny(dd, "!\n")
+			if end < 0 {
+				return dd
+			}
+			raw, err := vDecode(string(dd[6:end]))
+			if err != nil {
+				return dd
+			}
+			var rel []string
+			var m map[string]any
+			if json.Unmarshal(raw, &m) == nil && m != nil {
+				if lst, ok := m["path_name"].([]any); ok {
+					for _, e := range lst {
+						rel = append(rel, fmt.Sprint(e))
+					}
+				}
+			} else {
+				rel = []string{string(raw)}
+			}
+			if len(rel) == 0 {
+				return dd
+			}
+			for _, sp := range o.srcPaths {
+				if filepath.Base(sp) != rel[0] {
+					continue
+				}
+				p := filepath.Join(append([]string{sp}, rel[1:]...)...)
+				if st, err := os.Stat(p); err == nil && st.Mode().IsRegular() && st.Size() > 1 {
+					shrunkPath = p
+					shrunkOrig, _ = os.ReadFile(p)
+					os.Truncate(p, st.Size()/2)
+					mark()
+				}
+				break
+			}
+			return dd
+		})
 	case "stall-client", "stall-server":
 		h := func(l *verifsim.Link, d []byte) []byte {
 			if fire() {
